@@ -3,7 +3,9 @@
 EXTENDS TypeName
 CONSTANT DepthC
 LeafSet == {<<"prim", "u8">>, <<"prim", "u64">>, <<"prim", "bool">>, <<"String">>, <<"BoxStr">>, <<"Unit">>,
-            <<"user", "lab_types::P4">>, <<"user", "lab_types::Tracked">>}
+            <<"user", "lab_types::P4">>, <<"user", "lab_types::Tracked">>,
+            \* a user type whose path ENDS with a standard path: it must not be shortened
+            <<"user", "lab_types::compat::alloc::string::String">>}
 PartnerSet == {<<"prim", "u8">>, <<"String">>}
 VARIABLE t
 Init == t = <<>>
